@@ -85,6 +85,24 @@ func genC08(tier string, seed int64) []Case {
 				}
 			}
 		}
+		// every late-notification order x both pause places x more prefixes x every suffix
+		for _, late := range []string{"beforeCtxClear", "beforeServerClear", "afterRelease", "afterDispatch"} {
+			for _, at := range []string{"", "cancel"} {
+				for _, p := range []string{"timeout", "healthy1", "healthy3", "rtcrash", "extcrash", "useragent"} {
+					for _, s := range c08Suffixes {
+						n := 0
+						if strings.HasPrefix(p, "ext") || p == "rtcrash" {
+							n = 1
+						}
+						trg := "auto"
+						if strings.HasPrefix(p, "healthy") || p == "useragent" {
+							trg = "explicit"
+						}
+						add(c08Desc{Prefix: p, Trigger: trg, Suffix: s, Late: late, LateAt: at, NExt: n})
+					}
+				}
+			}
+		}
 	}
 	return cases
 }
